@@ -112,3 +112,46 @@ CONTRACTS.extend([
         ],
     ),
 ])
+
+
+# --------------------------------------------------------------------------------------------------------------
+# maybe_replace_function_return_type: its two nested helpers cut / extend the header text around the return arrow.
+# The header is `H -> A :` (A = the return annotation, which MAY contain colons, parentheses, brackets; no arrow).
+MR = "cdd.shared.ast_cst_utils:maybe_replace_function_return_type"
+
+CONTRACTS.extend([
+    Contract(
+        MR + ".remove_return_typ",
+        params={"statement": "str", "H": "str", "A": "str"},
+        # ghosts H, A are extra declared variables (see `ghost_params`)
+        requires=[
+            "statement == H + '->' + A + ':'",
+            "not contains('>' + A + ':', '->')",
+        ],
+        result="str",
+        ensures=[
+            # everything before the arrow is kept (trailing blanks trimmed) and closed by the header colon; nothing of the
+            # annotation survives, whatever characters it contains
+            "result == rstrip(H) + ':'",
+        ],
+        ghost_params=("H", "A"),
+    ),
+    Contract(
+        MR + ".add_return_typ",
+        params={"statement": "str", "H": "str"},
+        closure={"new_node": "opaque"},
+        pure_results={"to_code": "str"},
+        requires=[
+            # a header without return annotation: `H :` -- H is everything up to the header colon and MAY contain colons
+            # itself (annotated parameters, defaults such as 'a:b')
+            "statement == H + ':'",
+        ],
+        result="str",
+        ensures=[
+            "startswith(result, H + ' -> ')",
+            "endswith(result, ':')",
+            "length(result) >= length(H) + 5",
+        ],
+        ghost_params=("H",),
+    ),
+])
